@@ -2,105 +2,26 @@ import PydlVerif.Model.JsonUtil
 import PydlVerif.Model.Scalar
 import PydlVerif.Model.BSpline
 import PydlVerif.Model.BSplineFit
+import PydlVerif.Model.BandChol
 open Lean
 namespace PydlVerif.Driver.C09
 open PydlVerif PydlVerif.BSpline PydlVerif.BSplineFit
 
-/-! Float stand-ins for the LAPACK kernels that the model takes as parameters (textbook banded
-Cholesky `dpbtf2`-style and the two triangular solves).  They are NOT part of the model; the
-comparison with the real code is within tolerance. -/
-
-def g2 (m : Array (Array Float)) (r c : Nat) : Float := (m[r]!)[c]!
-
-/-- lower band form `A[r][c] = A_full[c+r][c]`; returns `none` when a pivot is not positive -/
-def cholFactorF (bw n : Nat) (A : Array (Array Float)) : Option (Array (Array Float)) := Id.run do
-  let mut L := A
-  for j in [0:n] do
-    let d := g2 L 0 j
-    if !(d > 0) then return none
-    let s := Float.sqrt d
-    L := L.modify 0 (fun row => row.set! j s)
-    for r in [1:bw] do
-      if j + r < n then
-        L := L.modify r (fun row => row.modify j (fun v => v / s))
-    for i in [1:bw] do
-      if j + i < n then
-        let xi := g2 L i j
-        for r in [0:bw - i] do
-          if j + i + r < n then
-            let xr := g2 L (i + r) j
-            L := L.modify r (fun row => row.modify (j + i) (fun v => v - xi * xr))
-  -- entries below the matrix are not referenced by LAPACK; scipy returns them unchanged
-  return some L
-
-def cholSolveF (bw n : Nat) (L : Array (Array Float)) (b : Array Float) : Array Float := Id.run do
-  let mut y := b
-  for i in [0:n] do
-    let mut s := y[i]!
-    for r in [1:bw] do
-      if r ≤ i then s := s - g2 L r (i - r) * y[i - r]!
-    y := y.set! i (s / g2 L 0 i)
-  for ii in [0:n] do
-    let i := n - 1 - ii
-    let mut s := y[i]!
-    for r in [1:bw] do
-      if i + r < n then s := s - g2 L r i * y[i + r]!
-    y := y.set! i (s / g2 L 0 i)
-  return y
-
-def kernelsF : Kernels Float :=
-  { sqrt := Float.sqrt, isFinite := Float.isFinite, cholFactor := cholFactorF, cholSolve := cholSolveF }
-
-/-! Exact run (`α = Rat`): square-root-free stand-ins for the two kernels, a banded LDLᵀ factorisation and the
-matching solve.  The model treats the factor as opaque (it only pads it and hands it back to `cholSolve`), so the
-packing - D on band row 0, the unit lower factor's sub-diagonals on rows 1..bw-1 - is private to this pair.
-`K.sqrt` is only called by the fallback loop after `cholFactor` answered `none`; that path is NOT exact and the
-handler refuses to answer for it.  `sqrt := fun _ => 0` makes the model's fallback loop stop at its first column
+/-! The kernels that the driver runs as the LAPACK parameters of the model are the definitions of
+Model/BandChol.lean - the ones Props/C09.lean proves the factor + solve contract about (`ldlt_factor_spec`,
+`ldlt_solve_spec`, `ldlt_contract_kernel`, `chol_contract_kernel`, `cholesky_solves_ldlt`, `fit_is_optimum_ldlt`):
+  Float run: banded Cholesky `bandFactor (cholV Float.sqrt)` / `bandSolve (cholV Float.sqrt)` (operation order of
+             LAPACK's unblocked `dpbtf2` / `dtbsv`; compared with the real code within tolerance);
+  exact run (`α = Rat`): the square-root-free banded `L D Lᵀ` pair `bandFactor ldltV` / `bandSolve ldltV`.
+The model treats the factor as opaque (it only pads it and hands it back to `cholSolve`), so the packing of `ldltV` -
+D on band row 0, the unit lower factor's sub-diagonals on rows 1..bw-1 - is private to the pair.
+`K.sqrt` is only called by the model's fallback loop after `cholFactor` answered `none`; that path is NOT exact and the
+handler refuses to answer for it.  `kernelsLdlt.sqrt = fun _ => 0` makes the fallback loop stop at its first column
 (`0 < d` fails) instead of grinding through rationals whose size explodes; its answer is discarded anyway. -/
 
-def q2 (m : Array (Array Rat)) (r c : Nat) : Rat := (m[r]!)[c]!
+def kernelsF : Kernels Float := BandChol.kernelsChol Float.sqrt Float.isFinite
 
-/-- lower band form `A[r][c] = A_full[c+r][c]`; `none` as soon as a pivot `d_j ≤ 0`; else `F[0][j] = d_j`,
-`F[r][j] = L[j+r][j]` (unit lower `L`, `A = L D Lᵀ`); entries beyond the matrix are left unchanged -/
-def cholFactorQ (bw n : Nat) (A : Array (Array Rat)) : Option (Array (Array Rat)) := Id.run do
-  let mut F := A
-  for j in [0:n] do
-    let d := q2 F 0 j
-    if !(d > 0) then return none
-    -- v_r = A'[j+r][j] (column j of the current Schur complement, unscaled); l_r = v_r / d
-    let v : Array Rat := ((List.range bw).map fun r => if j + r < n then q2 F r j else 0).toArray
-    for r in [1:bw] do
-      if j + r < n then
-        F := F.modify r (fun row => row.modify j (fun a => a / d))
-    -- A'[j+i+r][j+i] -= l_i * d * l_{i+r} = l_i * v_{i+r}
-    for i in [1:bw] do
-      if j + i < n then
-        let li := q2 F i j
-        for r in [0:bw - i] do
-          if j + i + r < n then
-            F := F.modify r (fun row => row.modify (j + i) (fun a => a - li * v[i + r]!))
-  return some F
-
-/-- solves `L D Lᵀ x = b` with the packing of `cholFactorQ` -/
-def cholSolveQ (bw n : Nat) (F : Array (Array Rat)) (b : Array Rat) : Array Rat := Id.run do
-  let mut y := b
-  for i in [0:n] do                       -- L z = b
-    let mut s := y[i]!
-    for r in [1:bw] do
-      if r ≤ i then s := s - q2 F r (i - r) * y[i - r]!
-    y := y.set! i s
-  for i in [0:n] do                       -- D w = z
-    y := y.set! i (y[i]! / q2 F 0 i)
-  for ii in [0:n] do                      -- Lᵀ x = w
-    let i := n - 1 - ii
-    let mut s := y[i]!
-    for r in [1:bw] do
-      if i + r < n then s := s - q2 F r i * y[i + r]!
-    y := y.set! i s
-  return y
-
-def kernelsQ : Kernels Rat :=
-  { sqrt := fun _ => 0, isFinite := fun _ => true, cholFactor := cholFactorQ, cholSolve := cholSolveQ }
+def kernelsQ : Kernels Rat := BandChol.kernelsLdlt
 
 /-- probe: a factorisation kernel that always answers; `fit` with it has status 0 exactly when the model reaches
 `K.cholFactor` (enough breakpoints, no diagonal entry ≤ mininf) -/
